@@ -1,7 +1,7 @@
 (* Props_C18.v — property theorems for C18. *)
-From Coq Require Import List String Bool Arith.
+From Coq Require Import ZArith QArith List String Bool Arith.
 Import ListNotations.
-From HolpyV Require Import TruthTable Alethe AletheSound.
+From HolpyV Require Import TruthTable Alethe AletheSound LaGeneric LaGenericSound.
 
 (* Whenever the model of a veriT rule evaluation (13 propositional rules:
    not_or not_and not_not implies and_pos or_pos not_equiv1/2 equiv1/2 and or
@@ -35,3 +35,34 @@ Example C18_not_and_example :
     = Some (POr (PNot (PAtom 0)) (PNot (PAtom 1)))
   /\ accept "verit_not_and" [PNot (PAtom 0)] [PNot (PAnd (PAtom 0) (PAtom 1))] = None.
 Proof. split; vm_compute; reflexivity. Qed.
+
+(* la_generic (linear arithmetic with Farkas coefficients), at the level of linear
+   forms: whenever the model of the acceptance test accepts, no integer
+   (rational) assignment satisfies all the negated literals, i.e. the clause is
+   valid.  Integers: strict constraints become >= c + 1 and are rounded up to the
+   next multiple of the gcd of the coefficients; the weighted sum has no variable
+   left and a contradictory constant.  Rationals (the rule over the reals): the
+   repaired test, in which a strict constraint with weight 0 does not make the
+   comparison lenient.  The linearisation of the literal terms is done by the
+   harness (trusted glue, cross-checked by Z3 on the clause in the same run). *)
+Theorem C18_la_generic_int_sound : forall cs lam, accept_int cs lam = true ->
+  forall x, ~ Forall (fun c => zholds c x) cs.
+Proof. exact accept_int_sound. Qed.
+Print Assumptions C18_la_generic_int_sound.
+
+Theorem C18_la_generic_real_sound : forall cs lam, accept_real true cs lam = true ->
+  forall x, ~ Forall (fun c => qholds c x) cs.
+Proof. exact accept_real_sound. Qed.
+Print Assumptions C18_la_generic_real_sound.
+
+(* history: before the "fix: ... strict disequality with coefficient zero" commit the test
+   accepted x <= 0 | y < y with coefficients 0, 1 *)
+Theorem C18_la_generic_historical_refuted :
+  exists cs lam x, accept_real false cs lam = true /\ Forall (fun c => qholds c x) cs /\ accept_real true cs lam = false.
+Proof. exact accept_real_historical_refuted. Qed.
+Print Assumptions C18_la_generic_historical_refuted.
+
+(* non-vacuity: x - y >= 1 and y - x >= 0 are refuted with weights 1, 1 over the integers *)
+Example C18_la_generic_example :
+  accept_int [mkZ KGe [1; -1]%Z 1%Z; mkZ KGe [-1; 1]%Z 0%Z] [1; 1]%Z = true.
+Proof. vm_compute. reflexivity. Qed.
